@@ -36,7 +36,7 @@ def _range_const(t):
         return int.from_bytes(b[0:4], "little"), int.from_bytes(b[4:8], "little")
     return None
 
-def canon(t, value=None):
+def canon(t, value=None, arms=None):
     """t: normalised condition (with the branch `value` that leads to the Err: 1 = condition true, 0 = false) or, with
     value None, the normalised fallible cause whose failure is the Err. -> set of canonical atoms, or None if not a parameter test."""
     if not (isinstance(t, tuple) and t):
@@ -56,6 +56,12 @@ def canon(t, value=None):
         if value == 0:
             op = _NEG[op]
         return _rel(op, a, b[1])
+    if (t[0] == "BE" and value is not None) or t[0] in ("call", "sl", "fld", "index") and (isinstance(value, int) and value not in (0, 1) or value == "otherwise" or (arms and any(a not in (0, 1) for a in arms))):
+        # `match x { k => .., _ => .. }` directly on the integer expression
+        from termutil import pin_of
+        pin = pin_of(t, value, arms)
+        if pin is not None:
+            return _rel("Eq" if pin[2] else "Ne", pin[0], pin[1])
     if t[0] == "call" and len(t) == 3:
         name, args = t[1], t[2]
         if re.search(r"core::num::<impl u(32|64|size)>::is_multiple_of$", name) and len(args) == 2 and _int(args[1]) and value in (0, 1):
